@@ -247,6 +247,16 @@ func runQuota(ctx *core.RunCtx) {
 				limits = append(limits, 1+uint64(g.Choose(int(u+1))))
 			}
 		}
+		// ... and far from the program's own usage: up to the width of the counters, and around the
+		// multiples of 2^64/10 and 2^64/4 where "what is left" times a small factor no longer fits
+		far := []uint64{1 << 40, 1 << 60, 1844674407370955161, 1844674407370955190, 3689348814741910323, 3689348814741910353, 4611686018427387904, 4611686018427387910, 5534023222112865485, 7378697629483820647, 1 << 63, 1<<63 + 5, ^uint64(0) - 1, ^uint64(0)}
+		fl := far[g.Choose(len(far))] + uint64(g.Choose(3))
+		if g.Chance(1, 2) && len(ref.stamps) > 0 && fl < 1<<63 {
+			// such that what is left when some event is reached sits right at the boundary
+			fl += ref.stamps[g.Choose(len(ref.stamps))] + uint64(g.Choose(400))
+		}
+		limits = append(limits, fl)
+		ctx.Count("fault.limit far from the usage", 1)
 	}
 	type oc struct {
 		L      uint64
